@@ -45,6 +45,10 @@ type instance struct {
 	delAllow func(id string) error
 	// via runs op through the trait server's own RPC (op.Via); handled = false when the server has no such RPC
 	via func(op storeOp) (handled bool, got string, err error)
+	// guarded runs a write of the model with one more write option (the harness passes a WithExpectedCheck that
+	// parks and then refuses): kind "update" (Update*, with create-if-absent when upsert), "delete", "add" (waste:
+	// AddWasteRecord). handled = false where the API takes no write options.
+	guarded func(kind, id string, upsert bool, opt resource.WriteOption) (handled bool, err error)
 }
 
 // updateMask is the update_mask field of an Update… request for op.
@@ -83,7 +87,7 @@ type rpc struct {
 	// build populates a fresh model with the given ids and returns the server-level list call: the first ninit ids
 	// are configured as initial records (the model's WithInitial… option; hail: resource.WithInitialRecord), the
 	// others go through the trait's creation API. For waste the ids are the record ids in insertion order.
-	build func(r rpc, ids []string, ninit int) (*instance, error)
+	build func(r rpc, ids []string, ninit int, ropts []resource.Option) (*instance, error)
 }
 
 var ctx = context.Background()
@@ -109,12 +113,12 @@ func rpcByName(n string) (rpc, bool) {
 	return rpc{}, false
 }
 
-func buildElectric(r rpc, ids []string, ninit int) (*instance, error) {
+func buildElectric(r rpc, ids []string, ninit int, ropts []resource.Option) (*instance, error) {
 	var initial []*traits.ElectricMode
 	for _, id := range ids[:ninit] {
 		initial = append(initial, &traits.ElectricMode{Id: id, Title: id})
 	}
-	m := electricpb.NewModel(electricpb.WithInitialMode(initial...))
+	m := electricpb.NewModel(append([]resource.Option{electricpb.WithInitialMode(initial...)}, ropts...)...)
 	for _, id := range ids[ninit:] {
 		if err := m.AddMode(&traits.ElectricMode{Id: id, Title: id}); err != nil {
 			return nil, fmt.Errorf("AddMode(%q): %v", id, err)
@@ -154,16 +158,26 @@ func buildElectric(r rpc, ids []string, ninit int) (*instance, error) {
 			_, err := m.UpdateMode(&traits.ElectricMode{Id: op.ID, Title: op.ID, Description: "updated"}, r.writeOpts(op)...)
 			return err
 		},
+		guarded: func(kind, id string, upsert bool, opt resource.WriteOption) (bool, error) {
+			switch kind {
+			case "update":
+				_, err := m.UpdateMode(&traits.ElectricMode{Id: id, Title: id, Description: "guarded"}, guardOpts(upsert, opt)...)
+				return true, err
+			case "delete":
+				return true, m.DeleteMode(id, opt)
+			}
+			return false, nil
+		},
 	}, nil
 }
 
-func buildHail(r rpc, ids []string, ninit int) (*instance, error) {
+func buildHail(r rpc, ids []string, ninit int, ropts []resource.Option) (*instance, error) {
 	// hail ids are always generated by CreateHail; chosen ids come in as initial records or are upserted
 	opts := []resource.Option{hailpb.WithKeepAlive(-1 * time.Second)}
 	for _, id := range ids[:ninit] {
 		opts = append(opts, resource.WithInitialRecord(id, &traits.Hail{Id: id, Origin: &traits.Hail_Location{Name: id}}))
 	}
-	m := hailpb.NewModel(opts...)
+	m := hailpb.NewModel(append(opts, ropts...)...)
 	for _, id := range ids[ninit:] {
 		if _, err := m.UpdateHail(&traits.Hail{Id: id, Origin: &traits.Hail_Location{Name: id}}, resource.WithCreateIfAbsent()); err != nil {
 			return nil, fmt.Errorf("UpdateHail(%q, WithCreateIfAbsent): %v", id, err)
@@ -216,15 +230,26 @@ func buildHail(r rpc, ids []string, ninit int) (*instance, error) {
 			_, err := m.UpdateHail(&traits.Hail{Id: op.ID, Origin: &traits.Hail_Location{Name: op.ID}, Destination: &traits.Hail_Location{Name: "updated"}}, r.writeOpts(op)...)
 			return err
 		},
+		guarded: func(kind, id string, upsert bool, opt resource.WriteOption) (bool, error) {
+			switch kind {
+			case "update":
+				_, err := m.UpdateHail(&traits.Hail{Id: id, Origin: &traits.Hail_Location{Name: id}, Destination: &traits.Hail_Location{Name: "guarded"}}, guardOpts(upsert, opt)...)
+				return true, err
+			case "delete":
+				_, err := m.DeleteHail(id, opt)
+				return true, err
+			}
+			return false, nil
+		},
 	}, nil
 }
 
-func buildParent(r rpc, ids []string, ninit int) (*instance, error) {
+func buildParent(r rpc, ids []string, ninit int, ropts []resource.Option) (*instance, error) {
 	var initial []*traits.Child
 	for _, id := range ids[:ninit] {
 		initial = append(initial, &traits.Child{Name: id, Parent: id})
 	}
-	m := parentpb.NewModel(parentpb.WithInitialChildren(initial...))
+	m := parentpb.NewModel(append([]resource.Option{parentpb.WithInitialChildren(initial...)}, ropts...)...)
 	for _, id := range ids[ninit:] {
 		m.AddChild(&traits.Child{Name: id, Parent: id})
 	}
@@ -264,15 +289,22 @@ func buildParent(r rpc, ids []string, ninit int) (*instance, error) {
 			}
 			return nil
 		},
+		guarded: func(kind, id string, upsert bool, opt resource.WriteOption) (bool, error) {
+			if kind == "delete" {
+				_, err := m.RemoveChildByName(id, opt)
+				return true, err
+			}
+			return false, nil
+		},
 	}, nil
 }
 
-func buildPublication(r rpc, ids []string, ninit int) (*instance, error) {
+func buildPublication(r rpc, ids []string, ninit int, ropts []resource.Option) (*instance, error) {
 	var initial []*traits.Publication
 	for _, id := range ids[:ninit] {
 		initial = append(initial, &traits.Publication{Id: id, Body: []byte("b" + id), MediaType: id})
 	}
-	m := publicationpb.NewModel(publicationpb.WithInitialPublication(initial...))
+	m := publicationpb.NewModel(append([]resource.Option{publicationpb.WithInitialPublication(initial...)}, ropts...)...)
 	for _, id := range ids[ninit:] {
 		if _, err := m.CreatePublication(&traits.Publication{Id: id, Body: []byte("b" + id), MediaType: id}); err != nil {
 			return nil, fmt.Errorf("CreatePublication(%q): %v", id, err)
@@ -347,15 +379,26 @@ func buildPublication(r rpc, ids []string, ninit int) (*instance, error) {
 			_, err := m.UpdatePublication(op.ID, p, r.writeOpts(op)...)
 			return err
 		},
+		guarded: func(kind, id string, upsert bool, opt resource.WriteOption) (bool, error) {
+			switch kind {
+			case "update":
+				_, err := m.UpdatePublication(id, &traits.Publication{Id: id, Body: []byte("guarded"), MediaType: id}, guardOpts(upsert, opt)...)
+				return true, err
+			case "delete":
+				_, err := m.DeletePublication(id, opt)
+				return true, err
+			}
+			return false, nil
+		},
 	}, nil
 }
 
-func buildConsumables(r rpc, ids []string, ninit int) (*instance, error) {
+func buildConsumables(r rpc, ids []string, ninit int, ropts []resource.Option) (*instance, error) {
 	var initial []*traits.Consumable
 	for _, id := range ids[:ninit] {
 		initial = append(initial, &traits.Consumable{Name: id, Title: id})
 	}
-	m := vendingpb.NewModel(vendingpb.WithInitialConsumable(initial...))
+	m := vendingpb.NewModel(append([]resource.Option{vendingpb.WithInitialConsumable(initial...)}, ropts...)...)
 	for _, id := range ids[ninit:] {
 		if _, err := m.CreateConsumable(&traits.Consumable{Name: id, Title: id}); err != nil {
 			return nil, fmt.Errorf("CreateConsumable(%q): %v", id, err)
@@ -392,15 +435,26 @@ func buildConsumables(r rpc, ids []string, ninit int) (*instance, error) {
 			_, err := m.UpdateConsumable(&traits.Consumable{Name: op.ID, Title: op.ID, DisplayName: "updated"}, r.writeOpts(op)...)
 			return err
 		},
+		guarded: func(kind, id string, upsert bool, opt resource.WriteOption) (bool, error) {
+			switch kind {
+			case "update":
+				_, err := m.UpdateConsumable(&traits.Consumable{Name: id, Title: id, DisplayName: "guarded"}, guardOpts(upsert, opt)...)
+				return true, err
+			case "delete":
+				_, err := m.DeleteConsumable(id, opt)
+				return true, err
+			}
+			return false, nil
+		},
 	}, nil
 }
 
-func buildInventory(r rpc, ids []string, ninit int) (*instance, error) {
+func buildInventory(r rpc, ids []string, ninit int, ropts []resource.Option) (*instance, error) {
 	var initial []*traits.Consumable_Stock
 	for _, id := range ids[:ninit] {
 		initial = append(initial, &traits.Consumable_Stock{Consumable: id})
 	}
-	m := vendingpb.NewModel(vendingpb.WithInitialStock(initial...))
+	m := vendingpb.NewModel(append([]resource.Option{vendingpb.WithInitialStock(initial...)}, ropts...)...)
 	for _, id := range ids[ninit:] {
 		if _, err := m.CreateStock(&traits.Consumable_Stock{Consumable: id}); err != nil {
 			return nil, fmt.Errorf("CreateStock(%q): %v", id, err)
@@ -448,11 +502,22 @@ func buildInventory(r rpc, ids []string, ninit int) (*instance, error) {
 			_, err := m.UpdateStock(&traits.Consumable_Stock{Consumable: op.ID, Dispensing: true}, r.writeOpts(op)...)
 			return err
 		},
+		guarded: func(kind, id string, upsert bool, opt resource.WriteOption) (bool, error) {
+			switch kind {
+			case "update":
+				_, err := m.UpdateStock(&traits.Consumable_Stock{Consumable: id, Dispensing: true}, guardOpts(upsert, opt)...)
+				return true, err
+			case "delete":
+				_, err := m.DeleteStock(id, opt)
+				return true, err
+			}
+			return false, nil
+		},
 	}, nil
 }
 
-func buildWaste(r rpc, ids []string, ninit int) (*instance, error) {
-	m := wastepb.NewModel()
+func buildWaste(r rpc, ids []string, ninit int, ropts []resource.Option) (*instance, error) {
+	m := wastepb.NewModel(ropts...)
 	wastepb.VerifSetRecords(m, nil) // NewModel pre-generates 100 records
 	for _, id := range ids {
 		if _, err := m.AddWasteRecord(&traits.WasteRecord{Id: id, Area: id}); err != nil {
@@ -483,7 +548,62 @@ func buildWaste(r rpc, ids []string, ninit int) (*instance, error) {
 			return ks
 		},
 		del: func(id string) error { return fmt.Errorf("waste records cannot be deleted") },
+		guarded: func(kind, id string, upsert bool, opt resource.WriteOption) (bool, error) {
+			if kind == "add" {
+				_, err := m.AddWasteRecord(&traits.WasteRecord{Id: id, Area: id}, opt)
+				return true, err
+			}
+			return false, nil
+		},
 	}, nil
+}
+
+func guardOpts(upsert bool, opt resource.WriteOption) []resource.WriteOption {
+	if upsert {
+		return []resource.WriteOption{resource.WithCreateIfAbsent(), opt}
+	}
+	return []resource.WriteOption{opt}
+}
+
+// The closed family of id interceptors (shared with the Lean driver: `asciiLower`, `asciiUpper` of Icpt.lean):
+// byte-wise, so that they are the same function as Lean's `String.map Char.toLower` on every valid UTF-8 string.
+func asciiLower(s string) string {
+	b := []byte(s)
+	for i, c := range b {
+		if 'A' <= c && c <= 'Z' {
+			b[i] = c + 32
+		}
+	}
+	return string(b)
+}
+
+func asciiUpper(s string) string {
+	b := []byte(s)
+	for i, c := range b {
+		if 'a' <= c && c <= 'z' {
+			b[i] = c - 32
+		}
+	}
+	return string(b)
+}
+
+// icptFn returns the interceptor named name ("" = none: the identity).
+func icptFn(name string) func(string) string {
+	switch name {
+	case "lower":
+		return asciiLower
+	case "upper":
+		return asciiUpper
+	}
+	return func(s string) string { return s }
+}
+
+// icptOpts are the resource options of a model whose collections use the named interceptor.
+func icptOpts(name string) []resource.Option {
+	if name == "" {
+		return nil
+	}
+	return []resource.Option{resource.WithIDInterceptor(icptFn(name))}
 }
 
 func fm(mask []string) *fieldmaskpb.FieldMask {
